@@ -187,7 +187,7 @@ def load_replay(c):
 
 def main(argv):
     c = Check("C12", argv)
-    ok, blog = build_repo(["hx_utf8", "remove_invalid_utf8"])
+    ok, blog = build_repo(["hx_utf8", "remove_invalid_utf8", "commoncrawl_dedupe", "foldfilter"])
     if not ok:
         c.broken.append("build of repo working tree failed: " + blog[-800:])
         return c.finish(rule="build failed")
@@ -197,6 +197,8 @@ def main(argv):
     if note:
         c.assumptions.append("translator: the shape of the anchored code changed (" + note[:300] + "); the tie of the model to the code rests on the correspondence run below")
         log("  note: " + note[:300])
+    if c.tier == "thorough":
+        coqchk(c)
     drv, dlog = build_driver("C12")
     impl = hx_bin("hx_utf8")
     tool = repo_bin("remove_invalid_utf8")
@@ -354,6 +356,61 @@ def main(argv):
                 c.violation("tool/output-differs: remove_invalid_utf8 output differs from the well-formed lines of a %d-byte input" % len(data),
                             {"op": "remove_invalid_utf8", "kind": "whole-file", "stdin_hex": hexs(data[:4000]), "stdout_hex": hexs(so[:4000]), "expected_hex": hexs(want[:4000])})
     c.sample({"op": "remove_invalid_utf8", "stdin": repr(files[9])})
+
+    # ---- commoncrawl_dedupe promises valid UTF-8 output: every line it writes must be well-formed, and it must
+    #      write exactly the stripped, new, non-delimiter, well-formed lines
+    SP = b"\t\n\x0b\x0c\r "
+    MAGIC = b"df6fa1abb58549287111ba8d776733e9"
+    for data in files[:40] + [files[-1]]:
+        st, so, se = run_tool([repo_bin("commoncrawl_dedupe")], stdin=data, timeout=60)
+        c.count(("ccd", data), nontrivial=len(data) > 0, bucket="tool/commoncrawl_dedupe")
+        c.cov["traces_validated_against_impl"] += 1
+        seen, want = set(), []
+        lines_in = data.split(b"\n")
+        if lines_in and lines_in[-1] == b"":
+            lines_in.pop()
+        for l in lines_in:
+            l = l.strip(SP)
+            if l.startswith(MAGIC) or l in seen:
+                continue
+            seen.add(l)
+            if py_is_utf8(l):
+                want.append(l)
+        bad = [l for l in so.split(b"\n")[:-1] if not py_is_utf8(l)]
+        if st != 0 or bad:
+            c.violation("tool/commoncrawl_dedupe-ill-formed-output: commoncrawl_dedupe wrote the ill-formed line %r (status %s)" % (bad[0] if bad else b"", st),
+                        {"op": "commoncrawl_dedupe", "kind": "ill-formed-output", "stdin_hex": hexs(data[:4000]), "stdout_hex": hexs(so[:4000])})
+        elif so != b"".join(l + b"\n" for l in want):
+            c.violation("tool/commoncrawl_dedupe-output: output differs from the stripped, first-seen, well-formed lines of a %d-byte input" % len(data),
+                        {"op": "commoncrawl_dedupe", "kind": "output", "stdin_hex": hexs(data[:4000]), "stdout_hex": hexs(so[:4000]),
+                         "expected_hex": hexs(b"".join(l + b"\n" for l in want)[:4000])})
+
+    # ---- foldfilter hands its child pieces of (well-formed) lines: every piece must be well-formed, whatever the width
+    good_lines = []
+    for _ in range(25 if c.tier == "quick" else 250):
+        n = c.rng.randrange(1, 40)
+        good_lines.append(b"".join(c.rng.choice([b"a", b" ", b".", b",", b"\xc3\xa9", b"\xe2\x82\xac", b"\xf0\x9f\x98\x80", b"\xe3\x80\x82", enc(c.rng.choice(BOUNDARY_CPS[1:]))])
+                                   for _ in range(n)).replace(b"\n", b"").replace(b"\r", b"").replace(b"\x00", b"a"))
+    data = b"".join(l + b"\n" for l in good_lines)
+    for width in (1, 2, 3, 4, 5, 7, 10, 40):
+        for extra in ([], ["-s"]):
+            seen_path = os.path.join(SCRATCH, "pieces")
+            os.makedirs(SCRATCH, exist_ok=True)
+            if os.path.exists(seen_path):
+                os.unlink(seen_path)
+            st, so, se = run_tool([repo_bin("foldfilter"), "-w", str(width)] + extra + ["tee", seen_path], stdin=data, timeout=60)
+            c.count(("foldfilter", width, tuple(extra)), bucket="tool/foldfilter-pieces")
+            c.cov["traces_validated_against_impl"] += 1
+            pieces = open(seen_path, "rb").read().split(b"\n")[:-1] if os.path.exists(seen_path) else []
+            bad = [p_ for p_ in pieces if not py_is_utf8(p_)]
+            if st == "timeout" or bad:
+                c.violation("tool/foldfilter-ill-formed-piece: foldfilter -w %d %s handed its child the ill-formed piece %r (status %s)" % (width, " ".join(extra), bad[0] if bad else b"", st),
+                            {"op": "foldfilter", "kind": "ill-formed-piece", "args": ["-w", str(width)] + extra + ["tee", "<file>"], "stdin_hex": hexs(data[:4000]),
+                             "piece_hex": hexs(bad[0]) if bad else ""})
+                break
+
+    if c.tier == "thorough":
+        asan_lines(c, "hx_utf8", lines, "(exact-size heap buffers)")
 
     shutil.rmtree(SCRATCH, ignore_errors=True)
     return c.finish(level="proof",
